@@ -79,16 +79,75 @@ def names_of(case):
 
 
 # ------------------------------------------------------------------ materialise the v2 file
+class Lvl(dict):
+    """A configuration level (marks the maps the alias / bare renderers treat specially)."""
+
+
+if yaml is not None:
+    yaml.SafeDumper.add_representer(Lvl, lambda d, v: d.represent_dict(list(v.items())))
+
+V2_BOOL = {"all", "recursive", "unroll-variadic", "with-expecter", "disable-config-search", "disable-deprecation-warnings",
+           "disable-func-mocks", "disable-version-string", "dry-run", "exported", "fail-on-missing", "inpackage",
+           "inpackage-suffix", "include-auto-generated", "issue-845-fix", "keeptree", "print", "quiet",
+           "resolve-type-alias", "testonly", "version"}
+V2_UNTYPED = {"_anchors"}
+
+
 def level_map(case, L):
     m = fn(case["v2"].get(L, {}))
-    return {k: json.loads(t) for k, t in m.items()}
+    return Lvl((k, json.loads(t)) for k, t in m.items())
+
+
+def render_flow(doc, mode):
+    """Hand-written YAML (flow style, JSON scalars) for the two renderings PyYAML cannot produce:
+      alias: a level map equal to an earlier one is written as an alias, one that extends an earlier one with a
+             merge key (`<<: *a1`), every other one gets an anchor;
+      bare:  values of the typed string fields are written unquoted (they look like numbers / booleans / dates),
+             booleans as yes / no / on / off."""
+    seen = []            # (anchor, items) of the level maps emitted so far
+    flip = [0]
+
+    def scalar(v, bare):
+        if isinstance(v, bool):
+            if bare:
+                flip[0] += 1
+                return (("yes", "on") if v else ("no", "off"))[flip[0] % 2]
+            return "true" if v else "false"
+        if v is None:
+            return "null"
+        if isinstance(v, str):
+            return v if bare and v and not set(v) & set(" :#{}[],&*!|>'\"%@`\n\t") else json.dumps(v, ensure_ascii=False)
+        return json.dumps(v)
+
+    def emit(v, bare=False):
+        if isinstance(v, Lvl) and mode == "alias" and v:
+            items = set((k, json.dumps(x, sort_keys=True)) for k, x in v.items())
+            for name, its in seen:
+                if its == items:
+                    return "*" + name
+            name = "a%d" % (len(seen) + 1)
+            base = next(((n_, its) for n_, its in seen if its < items), None)
+            seen.append((name, items))
+            if base:
+                rest = {k: x for k, x in v.items() if (k, json.dumps(x, sort_keys=True)) not in base[1]}
+                return "&%s {<<: *%s, %s}" % (name, base[0], ", ".join(json.dumps(k) + ": " + emit(x) for k, x in rest.items()))
+            return "&%s {%s}" % (name, ", ".join(json.dumps(k) + ": " + emit(x) for k, x in v.items()))
+        if isinstance(v, dict):
+            typed = isinstance(v, Lvl) or v is doc
+            return "{" + ", ".join(json.dumps(k, ensure_ascii=False) + ": " +
+                                   emit(x, mode == "bare" and typed and k not in V2_UNTYPED and k != "packages") for k, x in v.items()) + "}"
+        if isinstance(v, list):
+            return "[" + ", ".join(emit(x, bare and not isinstance(x, (dict, list))) for x in v) + "]"
+        return scalar(v, bare)
+
+    return (emit(doc) + "\n").encode("utf8")
 
 
 def build_v2(case):
     sh = case["shape"]
     a, b, i, j = names_of(case)
     top = level_map(case, "top")
-    doc = dict(top)
+    doc = Lvl(top)
 
     def cfg(L, null=False):
         return None if null else level_map(case, L)
@@ -140,6 +199,10 @@ def spoil(case, doc):
         doc = {"structname": "X", "template": "testify", "packages": {a: {"config": {"all": True}}}}
     elif bad == "list-top":
         return json.dumps(["a", "list"]).encode()
+    elif bad == "dup-key":
+        return b"all: true\nall: false\npackages: {}\n"
+    elif bad in ("absent-input", "input-is-dir"):
+        return bad.encode()          # handled by replay_case: no file / a directory at the --config path
     elif bad == "not-yaml":
         return b"\x00\xff{{{ not: [yaml\n\t- at all"
     return doc
@@ -148,6 +211,8 @@ def spoil(case, doc):
 def dump(doc, style):
     if isinstance(doc, bytes):
         return doc
+    if style in ("alias", "bare"):
+        return render_flow(doc, style)
     if style == "json":
         return json.dumps(doc, ensure_ascii=False, indent=1).encode("utf8")
     return yaml.safe_dump(doc, default_flow_style=False, allow_unicode=True, sort_keys=False, width=10 ** 6).encode("utf8")
@@ -259,6 +324,9 @@ def layout_paths(case, idx, R):
         args += ["--outfile", name]
     elif lay["out"] == "abs":
         args += ["--outfile", str(outp)]
+    elif lay["out"] == "input":          # the same string as --config
+        outp = inp
+        args += ["--outfile", args[args.index("--config") + 1]]
     return cwd, inp, outp, args
 
 
@@ -266,6 +334,8 @@ def replay_case(ctx, run, idx, case, style=None):
     R = ctx.scratch / "cases" / f"c{idx}-{style or 'x'}"
     R.mkdir(parents=True)
     (R / "go.mod").write_text("module example.com/w\n\ngo 1.23\n")
+    if case["bad"] == "none" and case["vi"] in (10, 11):
+        style = "alias" if case["vi"] == 10 else "bare"       # these two styles ARE a rendering of the input
     style = style or ("json" if idx % 2 == 0 else "yaml")
     lay = case["lay"]
     doc = build_v2(case)
@@ -273,13 +343,26 @@ def replay_case(ctx, run, idx, case, style=None):
         doc = spoil(case, doc)
     raw = dump(doc, style)
     cwd, inp, outp, args = layout_paths(case, idx, R)
-    inp.write_bytes(raw)
+    if raw == b"absent-input":
+        pass
+    elif raw == b"input-is-dir":
+        inp.mkdir()
+    else:
+        inp.write_bytes(raw)
+    if isinstance(doc, dict) and style in ("alias", "bare", "yaml"):
+        # machinery check: the rendering must read back (independent reader) as the intended tree
+        try:
+            back = yaml.safe_load(raw.decode("utf8"))
+        except Exception as e:
+            raise MachineryError(f"rendering {style} of case {idx} is not YAML: {e}")
+        if style != "bare" and json.dumps(back, sort_keys=True, default=str) != json.dumps(doc, sort_keys=True, default=str):
+            raise MachineryError(f"rendering {style} of case {idx} does not read back as the intended v2 tree")
     if lay["stale"]:
         outp.write_text("# stale\n" + "stale-key: [" + "x" * 20000 + "]\n")
     before = tree_hash(R)
-    h0 = sha(inp.read_bytes())
+    h0 = sha(inp.read_bytes()) if inp.is_file() else "no-file"
     code, out, err = run.mockery(cwd, args)
-    h1 = sha(inp.read_bytes()) if inp.is_file() else "gone"
+    h1 = sha(inp.read_bytes()) if inp.is_file() else ("no-file" if h0 == "no-file" else "gone")
     after = tree_hash(R)
     # every file created / modified / removed, as location ids
     rin, rout = os.path.relpath(inp, R), os.path.relpath(outp, R)
@@ -290,6 +373,8 @@ def replay_case(ctx, run, idx, case, style=None):
     panic = bool(PANIC_RE.search(err) or PANIC_RE.search(out))
     wrote = outp.is_file() and not (lay["stale"] and outp.read_bytes().startswith(b"# stale"))
     v3tree, v3err = {}, None
+    if lay["out"] == "input":
+        wrote = False
     if outp.is_file() and code == 0 and wrote:
         try:
             y = yaml.safe_load(outp.read_bytes().decode("utf8"))
@@ -339,6 +424,8 @@ def judge(case, ob):
         return {"kind": "input-modified"}, {}
     if not case["ok"]:
         return None      # not a v2 file: only "no crash, input untouched" is promised
+    if case["lay"]["out"] == "input":
+        return None      # --outfile names the input: it survived (checked above), nothing more is demanded
     if m["exit"] != 0:
         return {"kind": "migrate-failed"}, {}
     if m["changed"] != [case["outloc"]]:
@@ -389,6 +476,7 @@ def case_sig(case):
     odd = NAMES.get(case["nm"]["id"], "")
     top = fn(case["v2"].get("top", {}))
     return {"fam": case["fam"], "shape": case["shape"], "vi": case["vi"], "name_id": case["nm"]["id"],
+            "out": case["lay"]["out"],
             "lay": "%s/%s/%s%s" % (case["lay"]["cwd"], case["lay"]["cfg"], case["lay"]["out"], "/stale" if case["lay"]["stale"] else ""),
             "name_class": name_class(odd) if case["nm"]["id"] != "-" else "-",
             "anchors_top": "_anchors" in top and top["_anchors"] not in ("null", "{}"),
@@ -477,7 +565,7 @@ def run(ctx):
     cases += simcases
     # vacuity guards
     fams = {c["fam"] for c in cases}
-    need = {"single", "style", "null", "pair", "levels", "shape", "layout", "names", "bad", "random"}
+    need = {"single", "style", "alias", "null", "pair", "levels", "shape", "layout", "names", "bad", "random"}
     if not need <= fams:
         raise MachineryError(f"vacuous: case families missing: {need - fams}")
     mapped_seen = {(k, L) for c in cases if c["fam"] == "single" for L, m in c["v2"].items() for k in fn(m)}
@@ -495,10 +583,10 @@ def run(ctx):
     if unknown:
         raise MachineryError(f"name ids without a concretisation: {unknown}")
     lays = {(c["lay"]["cwd"], c["lay"]["cfg"], c["lay"]["out"]) for c in cases}
-    if len(lays) < 29:
-        raise MachineryError(f"vacuous: only {len(lays)} of the 29 layouts (cwd x --config x --outfile) exported")
+    if len(lays) < 35:
+        raise MachineryError(f"vacuous: only {len(lays)} of the 35 layouts (cwd x --config x --outfile) exported")
     styles = {c["vi"] for c in cases if c["fam"] in ("style", "single", "null")}
-    if not set(range(0, 10)) <= styles:
+    if not (set(range(0, 10)) | {11}) <= styles or not any(c["vi"] == 10 for c in cases):
         raise MachineryError(f"vacuous: value styles exported: {sorted(styles)}")
     if len(cases) < 500:
         raise MachineryError(f"too few cases ({len(cases)})")
